@@ -104,6 +104,17 @@ inline RegData gen_regression(Draw &d, int n, int p, int ny, double decades, int
   return R;
 }
 
+// NIPALS plateau (KNOWN FINDING pca-nipals-plateau-order): a power iteration whose start column has almost no component along the
+// dominant direction settles on ANOTHER principal axis and meets the stopping rule there (relative change of the score vector below
+// sqrt(n*1e-10)); the dominant axis is extracted one component later.  Signature, decided on the library's output against the oracle
+// axes V (columns, eigenvalues descending): component k of the library is a principal axis (|cos| >= 1 - 1e-4) other than the k-th.
+// Returns the oracle index matched by library loading k, or -1 when it is not a principal axis at all.
+inline int matched_axis(const orc::M &V, const orc::M &Plib, int k) {
+  int best = -1; orc::ld bc = 0;
+  for (int j = 0; j < V.c; j++) { orc::ld dp = 0; for (int i = 0; i < V.r; i++) dp += V(i, j) * Plib(i, k); if (fabsl(dp) > bc) { bc = fabsl(dp); best = j; } }
+  return bc >= 1 - 1e-4L ? best : -1;
+}
+
 // Orthogonal designs: two-level full factorials (replicated), integer column scales and offsets, integer / exactly linear
 // responses.  After the first latent variables the X'y covariance is EXHAUSTED (exactly, or down to rounding residue) although
 // rank(X) is not reached - a structure continuous draws never produce.
